@@ -14,12 +14,14 @@ import tempfile
 
 ID = "C13"
 BOUND = {
-    "quick": "CSV: 3 coordinate systems x separators {',' ';' ' ' TAB} x header {0,1} x 3 time formats x 7 fixed + 5 random "
-             "tracks (1..4 obs) x all 38 admissible (id_E,id_N,id_U,id_T) assignments; GPX: GEO/ENU x 2 print formats x "
-             "12 tracks (single, one-file collection, one file per track); WKT: 60 tracks; network CSV: ENU/GEO x 4 "
-             "separators x header {0,1} x 4 fixed + 4 random networks (0..6 edges, 3 orientations, 2..5 vertices, loops, parallel edges)",
-    "thorough": "CSV: same grid with separators {',' ';' ' ' TAB '  ' '|'} x 6 time formats x (7 fixed + 30x6 random tracks) x 38 "
-                "assignments; GPX: 2 x 3 formats x 400 tracks; WKT: 6000 tracks; network CSV: 2 x 5 separators x 2 x 250 networks",
+    "quick": "CSV: 3 coordinate systems x separators {',' ';' TAB} x 3 time formats (+ blank separator x 1 space-free format) "
+             "x header {0,1} x 12 tracks (7 fixed + 5 random, 1..4 obs) x all 38 admissible (id_E,id_N,id_U,id_T) assignments; "
+             "GPX: GEO/ENU x 2 print formats x 12 tracks (single, one-file collection, one file per track); WKT: 60 tracks; "
+             "network CSV: ENU/GEO x 4 separators x header {0,1} x 8 networks (0..6 edges, 3 orientations, 2..5 vertices, "
+             "loops, parallel edges)",
+    "thorough": "CSV: 3 systems x separators {',' ';' TAB '  ' '|'} x 7 time formats (+ blank separator x 3 space-free formats) "
+                "x header {0,1} x 192 tracks x 38 assignments; GPX: 2 x 3 formats x 137 tracks; WKT: 12000 tracks; "
+                "network CSV: 2 x 5 separators x 2 x 248 networks",
 }
 RULE = ("case = one (route, coordinate system, separator, header flag, time format) with an explicit list of tracks / "
         "networks; every (track, column assignment) is one evaluation.  Values: negative, |x| up to 1e12, many decimals, "
@@ -185,8 +187,8 @@ def cases(tier, seed):
                     yield dict(kind="net", srid=srid, sep=sep, h=h,
                                networks=[rnd_network(rnd, srid, rnd.randrange(0, 7)) for _ in range(10)])
 
-    # order: routes / options are independent; the header-flag variants come last so that a defect in one of
-    # them cannot hide the rest of the space behind the runner's 50-failure cut-off
+    # order: the plain variants first, then the remaining option families round-robin, so that a defect in one
+    # family cannot hide the others behind the runner's 50-failure cut-off
     yield from csv_cases(0)
     yield from gpx_cases("GEO")
     for srid in ("ENU", "GEO"):
@@ -194,9 +196,13 @@ def cases(tier, seed):
             yield dict(kind="wkt", srid=srid, tracks=fixed_tracks(srid) + [
                 [rnd_xy(rnd, srid) + [0.0, TIMES[0]] for _ in range(rnd.randrange(1, 7))] for _ in range(23 if quick else 53)])
     yield from net_cases(1)
-    yield from net_cases(0)
-    yield from gpx_cases("ENU")
-    yield from csv_cases(1)
+    tails = [net_cases(0), gpx_cases("ENU"), csv_cases(1)]
+    while tails:
+        for g in list(tails):
+            try:
+                yield next(g)
+            except StopIteration:
+                tails.remove(g)
 
 
 # ----------------------------------------------------------------------------------------------
@@ -248,6 +254,9 @@ def compare_track(back, obs, srid, tfmt, with_z, with_t, what, fails):
         got = (p.getX(), p.getY(), p.getZ())
         bad = abs(got[0] - x) > tx + slack(x) or abs(got[1] - y) > ty + slack(y) or (with_z and abs(got[2] - z) > tz + slack(z))
         if bad or any(isinstance(g, float) and g != g for g in got):
+            only_u = (abs(got[0] - x) <= tx + slack(x) and abs(got[1] - y) <= ty + slack(y) and got[2] == 0)
+            if only_u and what.startswith("gpx ENU"):
+                what = "[gpx-enu-elevation-lost] " + what      # known finding: <ele> is dropped when reading as ENU
             fails.append("%s: obs %d written (%r,%r,%r) read (%r,%r,%r)" % (what, i, x, y, z if with_z else "-", got[0], got[1], got[2]))
             return False
         if with_t:
